@@ -428,6 +428,13 @@ pub fn exec_s3(case: &Case) -> Outcome {
             }
             let next = committed.first().map(|v| snaps.iter().find(|(e, _)| *e == v.effect_seq).map(|(_, s)| s).unwrap());
             let w = committed.first().map(|v| v.wall).unwrap_or(w_read);
+            // a committed version is judged against the version it actually replaced (its immediate
+            // predecessor in the file's history), not against what the client believes it read: a
+            // write-back of stale content must show up as foreign leases changed / dropped
+            let prev = match committed.first() {
+                Some(v) => snaps.iter().rev().find(|(e, _)| *e < v.effect_seq).map(|(_, s)| s).unwrap_or(&empty),
+                None => prev,
+            };
             if let Err((sig, msg)) = check_transition(prev, next, &r.xop, &r.res, w) {
                 out.set_fail(sig, format!("client {} op {}: {}", r.client, r.idx, msg));
                 return out;
